@@ -77,9 +77,14 @@ def rule_raised_and_reachable(run: Run, prog: Program, cg: callgraph.CallGraph, 
         if hit:
             run.add("E7.a", exc_name, f"reachable from {ef.short}", PROVEN, f"raised in {', '.join(h.replace('geometer.', '') for h in hit)}", ef.loc)
         else:
-            run.add("E7.a", exc_name, f"reachable from {ef.short}", VIOLATION,
-                    f"no raise of {exc_name} is reachable from {ef.short}; it is raised only in "
-                    f"{', '.join(s.replace('geometer.', '') for s in sorted(site_fns))}", ef.loc)
+            unresolved = sum(1 for q in reach for cs in cg.sites.get(q, []) if cs.how == "unresolved")
+            if unresolved:
+                run.add("E7.a", exc_name, f"reachable from {ef.short}", UNDECIDED,
+                        f"no raise of {exc_name} found in the call tree of {ef.short}, but {unresolved} call(s) in it could not be resolved", ef.loc)
+            else:
+                run.add("E7.a", exc_name, f"reachable from {ef.short}", VIOLATION,
+                        f"no raise of {exc_name} is reachable from {ef.short}; it is raised only in "
+                        f"{', '.join(s.replace('geometer.', '') for s in sorted(site_fns))}", ef.loc)
     return sites
 
 
